@@ -21,12 +21,12 @@ type NodeDef struct {
 	ID   int    `json:"id"`
 	Kind string `json:"kind"` // user | flow | batch
 	// how the node is built in Go: k1 k1fb k1exec k1none k2 k3 k4 opt bld mix
-	Impl  string `json:"impl,omitempty"`
+	Impl  string  `json:"impl,omitempty"`
 	Retry *[2]int `json:"retry,omitempty"` // budget, wait (ms); nil = not a RetryableNode
-	Fb    string `json:"fb,omitempty"`    // none | default | user
-	Prep  string `json:"prep,omitempty"`  // absent | direct | res | any | batch
-	Exec  string `json:"exec,omitempty"`
-	Post  string `json:"post,omitempty"`
+	Fb    string  `json:"fb,omitempty"`    // none | default | user
+	Prep  string  `json:"prep,omitempty"`  // absent | direct | res | any | batch
+	Exec  string  `json:"exec,omitempty"`
+	Post  string  `json:"post,omitempty"`
 	// flows
 	Start *int    `json:"start,omitempty"`
 	Conns [][]int `json:"conns,omitempty"` // [from, action, to]  (to = -1: nil)
@@ -61,6 +61,11 @@ type EScen struct {
 	// gated runs: the controller sits on quiescent point number HoldPoint for HoldMs before releasing
 	HoldPoint int `json:"hold_point,omitempty"`
 	HoldMs    int `json:"hold_ms,omitempty"`
+	// Warmup > 0: only the first Warmup connections of every flow are made, the root is run once
+	// on a store of its own and that run is thrown away (script state reset); then the remaining
+	// connections are made and the scenario proper begins.  The model sees the full table only:
+	// Connect calls made after a flow has already run count like all others.
+	Warmup int `json:"warmup,omitempty"`
 }
 
 type EOutcome struct {
@@ -420,6 +425,9 @@ func (h *hnode) noteItems(v *Val) {
 }
 
 func (h *hnode) prep(shared *flyt.SharedStore) Resp {
+	h.mu.Lock()
+	h.tries = nil // a new visit of the node
+	h.mu.Unlock()
 	st := h.rt.w.encode(shared)
 	if shared == h.rt.w.store {
 		h.rt.w.noteCallback(shared)
@@ -483,10 +491,14 @@ func (h *hnode) bpost(shared *flyt.SharedStore, items, results []flyt.Result) Re
 		Items: h.rt.w.encodeList(items), Results: h.rt.w.encodeList(results)}, "post", 0)
 }
 
+// staleValue: what a failing callback returns NEXT TO its error (Go allows both); the engine must
+// ignore it
+func (h *hnode) staleValue() any { return h.rt.w.tok(7777) }
+
 func (h *hnode) anyRet(r Resp) (any, error) {
 	switch r.K {
 	case "err":
-		return nil, realiseErr(r.U)
+		return h.staleValue(), realiseErr(r.U)
 	case "act":
 		return actName(r.A), nil
 	}
@@ -498,7 +510,7 @@ func (h *hnode) anyRet(r Resp) (any, error) {
 func (h *hnode) resRet(r Resp) (flyt.Result, error) {
 	switch r.K {
 	case "err":
-		return flyt.Result{}, realiseErr(r.U)
+		return flyt.NewResult(h.staleValue()), realiseErr(r.U)
 	case "act":
 		return flyt.NewResult(actName(r.A)), nil
 	}
@@ -836,17 +848,55 @@ func runEngine(sc EScen) (obs EObs) {
 			panic("flow start nodes form a cycle")
 		}
 	}
-	for _, d := range sc.Nodes {
-		if d.Kind != "flow" {
-			continue
-		}
-		for _, c := range d.Conns {
-			var to flyt.Node
-			if c[2] >= 0 {
-				to = nodes[c[2]]
+	connectRange := func(from, to int) {
+		for _, d := range sc.Nodes {
+			if d.Kind != "flow" {
+				continue
 			}
-			flows[d.ID].Connect(nodes[c[0]], actName(c[1]), to)
+			for i, c := range d.Conns {
+				if i < from || i >= to {
+					continue
+				}
+				var dst flyt.Node
+				if c[2] >= 0 {
+					dst = nodes[c[2]]
+				}
+				flows[d.ID].Connect(nodes[c[0]], actName(c[1]), dst)
+			}
 		}
+	}
+	if sc.Warmup > 0 {
+		connectRange(0, sc.Warmup)
+		real := w.store
+		w.store = flyt.NewSharedStore()
+		func() {
+			defer func() { recover() }()
+			done := make(chan struct{})
+			go func() {
+				defer close(done)
+				defer func() { recover() }()
+				flyt.Run(ctx, nodes[sc.Root], w.store)
+			}()
+			select {
+			case <-done:
+			case <-time.After(10 * time.Second):
+			}
+		}()
+		// forget the warm-up run
+		w.store = real
+		w.wmu.Lock()
+		w.writes = 0
+		w.wmu.Unlock()
+		rt.mu.Lock()
+		rt.trace = nil
+		for i := range rt.counts {
+			rt.counts[i] = 0
+		}
+		rt.waitCount = nil
+		rt.mu.Unlock()
+		connectRange(sc.Warmup, 1<<30)
+	} else {
+		connectRange(0, 1<<30)
 	}
 	if sc.PreCancel {
 		cancel()
